@@ -163,6 +163,48 @@ def rule_align_impls(u, rep):
         if not oks:
             rep.add("ALIGN", role + ":paths", "align of %s has no successful path" % role, b.loc())
             continue
+        # a scratch buffer of fixed size indexed by the padding: the padding is anything below the unit, and units are
+        # as large as the largest alignment a zero-copy type declares (repr(align(N))): folded on a few paddings
+        from . import rules_cursor as _rc
+        for p in paths:
+            for e in p.events:
+                if e[0] != "MayPanic" or e[1] != "index":
+                    continue
+                base, rng = e[3]
+                if not (isinstance(base, tuple) and base and base[0] == "bytes" and is_c(base[1]) and isinstance(rng, tuple) and rng and rng[0] == "adt" and "::ops::range::" in rng[1]):
+                    continue
+                pads = set()
+
+                def find_pads(v, depth=0):
+                    if isinstance(v, tuple) and depth < 12:
+                        if v and v[0] == "pad":
+                            pads.add(v)
+                        for y in v:
+                            find_pads(y, depth + 1)
+                find_pads(rng)
+                for c_ in p.conds:
+                    find_pads(c_[1] if len(c_) > 1 else None)
+                if len(pads) != 1:
+                    continue
+                pv = list(pads)[0]
+                f = dict(rng[3])
+                worst = None
+                for val in (0, 1, 7, 15, 16, 17, 31, 63, 127, 4095):
+                    env = {pv: val, "S": 1}
+                    try:
+                        if not all(bool(_rc._ev(c_[1], env)) == (c_[0] == "true") for c_ in p.conds if c_[0] in ("true", "false")):
+                            continue
+                        nmr = rng[1]
+                        lo = _rc._ev(f[0], env) if (nmr.endswith("::Range") or nmr.endswith("::RangeFrom")) else 0
+                        hi = _rc._ev(f[1], env) if nmr.endswith("::Range") else (_rc._ev(f[0], env) if nmr.endswith("::RangeTo") else base[1][1])
+                    except _rc._Unk:
+                        continue
+                    if not (lo <= hi <= base[1][1]) and worst is None:
+                        worst = (val, lo, hi)
+                rep.oblige(worst is None)
+                if worst is not None:
+                    rep.add("ALIGN", role + ":scratch", "align of %s indexes a scratch buffer of %d bytes with %d..%d when the padding is %d: paddings go up to unit(T) - 1, and a zero-copy type with repr(align(N)) has unit N: the reader panics on streams the writer produces"
+                            % (role, base[1][1], worst[1], worst[2], worst[0]), e[2])
         for p in oks:
             amount = None
             okp = True
@@ -392,4 +434,50 @@ def rule_write_delegates(u, rep):
                 if not ok:
                     rep.add("WRITE-FWD", "default", "the default WriteWithNames::write must delegate exactly once to value._serialize_inner(self) on every successful path; %s it emits %s"
                             % (("under [%s]" % ", ".join(row_str(norm_cond(c)) for c in p.conds)) if p.conds else "", [(e[0], e[2] if e[0] == "W" and len(e) > 2 else "") for e in evs]), b.loc())
+    return n
+
+
+def rule_pad_function(u, rep):
+    """PAD: the body of pad_align_to, folded by constant propagation on a grid of (offset, unit) pairs -- every
+    power-of-two unit up to 4096 and three large ones, offsets around 0, around multiples of the unit, around 2^32 and
+    at the top of usize -- yields (-offset) mod unit: the smallest padding that makes the position a multiple of the
+    unit. A body the constant domain cannot fold is left undecided (counted, not reported)."""
+    bs = [b for b in u.bodies.values() if b.d.get("name") == "pad_align_to" and b.d.get("krate") == "epserde" and b.kind == "Fn" and b.thir is not None]
+    n = 0
+    undecided = 0
+    M = 1 << 64
+    for b in bs:
+        ip = interp.Interp(u, wirehooks.WireHooks())
+        units = [1 << k for k in range(0, 13)] + [1 << 16, 1 << 31, 1 << 63]
+        bad = None
+        for a in units:
+            offs = set(range(0, min(2 * a + 2, 70)))
+            for k in (3, 1000):
+                for r in (0, 1, a - 1):
+                    offs.add((k * a + r) % M)
+            offs.update([(1 << 32) - 1, 1 << 32, (1 << 32) + 1, M - 1, M - 2, (M - a) % M, (M - a - 1) % M, (M - a + 1) % M])
+            for v in sorted(offs):
+                try:
+                    paths = ip.run(b, [C(v), C(a)])
+                except (interp.Unsupported, RecursionError):
+                    undecided += 1
+                    continue
+                rets = [p for p in paths if p.kind == "ret"]
+                if len(paths) != 1 or len(rets) != 1 or not is_c(rets[0].value):
+                    if any(p.kind == "panic" for p in paths) and not rets:
+                        bad = bad or (v, a, "a panic")
+                        n += 1
+                        continue
+                    undecided += 1
+                    continue
+                n += 1
+                got = rets[0].value[1]
+                want = (-v) % a
+                if got != want and bad is None:
+                    bad = (v, a, got)
+        rep.oblige(bad is None)
+        if bad is not None:
+            rep.add("PAD", "pad_align_to", "pad_align_to(%d, %d) folds to %s; the padding to the next multiple of the unit is %d" % (bad[0], bad[1], bad[2], (-bad[0]) % bad[1]), b.loc())
+    rep.count("pad_grid_points_folded", n)
+    rep.count("pad_grid_points_undecided", undecided)
     return n
